@@ -237,6 +237,7 @@ fn child() {
             "drop" => {
                 // `unwind`: the handle is owned by a frame that panics, i.e. it is dropped while the thread is unwinding
                 let unwind = step["unwind"].as_bool().unwrap_or(false);
+                let inside = step["inside"].as_bool().unwrap_or(false);
                 pool.run(t, move |_, sh| {
                     let s = sh.handles.lock().unwrap().remove(&h);
                     if unwind {
@@ -246,6 +247,10 @@ fn child() {
                                 panic!("frame owning a span handle unwinds");
                             }
                         });
+                    } else if inside {
+                        // the handle is dropped from inside a dispatcher lookup (a closure passed to get_default)
+                        let mut owned = Some(s);
+                        tracing_core::dispatch::get_default(|_| drop(owned.take()));
                     } else {
                         drop(s);
                     }
